@@ -6,7 +6,8 @@ namespace NemoVerif.Serialize
     wrapper tags is shadowed by a class of `name_to_class`. -/
 theorem builtin_tags_not_classes :
     isDataclassName "datetime" = false ∧ isDataclassName "deque" = false ∧ isDataclassName "tuple" = false
-    ∧ isDataclassName "dict" = false ∧ isDataclassName "set" = false ∧ isDataclassName "regex" = false := by
+    ∧ isDataclassName "dict" = false ∧ isDataclassName "set" = false ∧ isDataclassName "regex" = false
+    ∧ isDataclassName "comparison" = false := by
   simp [isDataclassName, NemoVerif.Generated.C11.nameToClass]
 
 theorem keyStr_str {k : Key} (h : k.isStr = true) : keyStr k = .ok (keyName k) ∧ Key.str (keyName k) = k := by
@@ -39,7 +40,7 @@ theorem raw_roundtrip : (v : PV) → RawOk v = true → ∃ j, rawDump v = .ok j
   | .action _ _ _ _ _ _ _, h => by simp [RawOk] at h
   | .partialFn, h => by simp [RawOk] at h
   | .regex _ _, h => by simp [RawOk] at h
-  | .cmp, h => by simp [RawOk] at h
+  | .cmp _ _, h => by simp [RawOk] at h
   | .other _, h => by simp [RawOk] at h
 theorem raw_roundtrip_list : (xs : List PV) → RawOkList xs = true → ∃ js, rawDumpList xs = .ok js ∧ decodeList js = .ok xs
   | [], _ => ⟨[], by simp [rawDumpList], by simp [decodeList]⟩
@@ -214,13 +215,20 @@ theorem roundtrip : (v : PV) → Encodable v = true → ∃ j, encode v = .ok j 
   | .action uid name fu st ctx args sc, h => by
     simp only [Encodable, Bool.and_eq_true] at h
     obtain ⟨⟨hc, ha⟩, hs⟩ := h
-    obtain ⟨jc, c1, c2⟩ := raw_roundtrip ctx hc
-    obtain ⟨ja, a1, a2⟩ := raw_roundtrip args ha
+    obtain ⟨jc, c1, c2⟩ := roundtrip ctx hc
+    obtain ⟨ja, a1, a2⟩ := roundtrip args ha
     refine ⟨_, by simp [encode, c1, a1, bind, Except.bind, pure, Except.pure]; rfl, ?_⟩
     cases fu <;>
     simp [wrap, decode, typeTag, decodeAtValue, decodePlain, optStrJ, c2, a2, lookup_action, hs, bind, Except.bind, pure, Except.pure]
   | .partialFn, h => by simp [Encodable] at h
-  | .cmp, h => by simp [Encodable] at h
+  | .cmp op v, h => by
+    simp only [Encodable, Bool.and_eq_true] at h
+    obtain ⟨hop, hv⟩ := h
+    have hop' : op ∈ NemoVerif.Generated.C11.comparisonOps := by simpa using hop
+    have := builtin_tags_not_classes
+    cases v <;> simp [numJ] at hv <;>
+      exact ⟨_, by simp [encode, numJ, hop'] <;> rfl, by
+        simp [decode, typeTag, strField, fieldJ, numOfJ, hop', this, bind, Except.bind, pure, Except.pure]⟩
   | .other _, h => by simp [Encodable] at h
 theorem roundtrip_list : (xs : List PV) → EncodableList xs = true → ∃ js, encodeList xs = .ok js ∧ decodeList js = .ok xs
   | [], _ => ⟨[], by simp [encodeList], by simp [decodeList]⟩
@@ -282,7 +290,7 @@ theorem rawDump_isOk : (v : PV) → (rawDump v).isOk = RawShape v
     have := rawDumpKvs_isOk kvs
     cases h : rawDumpKvs kvs <;> simp_all [rawDump, RawShape, bind, Except.bind, pure, Except.pure, Except.isOk, Except.toBool]
   | .set _ | .deque _ | .data _ _ | .railsConfig _ | .specType _ | .enum _ _ | .datetime _
-  | .action _ _ _ _ _ _ _ | .partialFn | .regex _ _ | .cmp | .other _ => by
+  | .action _ _ _ _ _ _ _ | .partialFn | .regex _ _ | .cmp _ _ | .other _ => by
     simp [rawDump, RawShape, Except.isOk, Except.toBool]
 theorem rawDumpList_isOk : (xs : List PV) → (rawDumpList xs).isOk = RawShapeList xs
   | [] => by simp [rawDumpList, RawShapeList, Except.isOk, Except.toBool]
@@ -317,11 +325,15 @@ theorem encode_isOk : (v : PV) → (encode v).isOk = EncShape v
     have := encodeKvs_isOk kvs
     cases h : encodeKvs kvs <;> simp_all [encode, EncShape, bind, Except.bind, pure, Except.pure, Except.isOk, Except.toBool]
   | .action _ _ _ _ ctx args _ => by
-    have h1 := rawDump_isOk ctx
-    have h2 := rawDump_isOk args
-    cases hc : rawDump ctx <;> cases ha : rawDump args <;>
+    have h1 := encode_isOk ctx
+    have h2 := encode_isOk args
+    cases hc : encode ctx <;> cases ha : encode args <;>
       simp_all [encode, EncShape, bind, Except.bind, pure, Except.pure, Except.isOk, Except.toBool]
-  | .cmp | .other _ => by simp [encode, EncShape, Except.isOk, Except.toBool]
+  | .other _ => by simp [encode, EncShape, Except.isOk, Except.toBool]
+  | .cmp op v => by
+    by_cases hop : op ∈ NemoVerif.Generated.C11.comparisonOps
+    · cases v <;> simp [encode, EncShape, numJ, hop, Except.isOk, Except.toBool]
+    · simp [encode, EncShape, hop, Except.isOk, Except.toBool]
 theorem encodeList_isOk : (xs : List PV) → (encodeList xs).isOk = EncShapeList xs
   | [] => by simp [encodeList, EncShapeList, Except.isOk, Except.toBool]
   | x :: xs => by
